@@ -95,6 +95,11 @@ class E2Check:
                     if r.get("kind") == "does-not-terminate":
                         from xmlsem import wellformed
                         r["read_to_end_arrays_without_progress"] = wellformed.known_shape_sites(P.spec, n)
+                    if r.get("kind") == "exception-escapes" and "TypeError" in str(r.get("exception")):
+                        from xmlsem import wellformed
+                        r["optional_length_across_break"] = [
+                            a for m2 in P.decls if m2 == n or m2.startswith(n + ".")
+                            for a in wellformed.optional_length_across_break(P.decls[m2])]
                     return r
             return None
         finally:
